@@ -65,7 +65,7 @@ def overlapping_gene(w, g, new_gid, antisense=False):
 
 
 def rich_world(seed, n_chroms=6, genes_per_chrom=3, groups=3, multimappers=True, reads_per_t=5, hidden_cov=5,
-               unmapped=3):
+               unmapped=3, polya_frac=0.5, read_modes=None):
     """Several chromosomes of distinct lengths, novel (hidden) isoforms on every chromosome, shared-exon and antisense
     genes, paralogs with multi-mapped reads, read-group tags, a few unmapped records."""
     w = World(seed)
@@ -97,7 +97,8 @@ def rich_world(seed, n_chroms=6, genes_per_chrom=3, groups=3, multimappers=True,
             src = [g for g in w.genes if g.id == "G1_1"][0]
             if pos + (src.end - src.start) + 1000 < w.chrom_len(cname):
                 clone_gene(w, src, "Q1", cname, pos)
-    add_standard_reads(w, per_transcript=reads_per_t, jitter=3, hidden_cov=hidden_cov)
+    add_standard_reads(w, per_transcript=reads_per_t, jitter=3, hidden_cov=hidden_cov, polya_frac=polya_frac,
+                       **({"modes": read_modes} if read_modes else {}))
     if multimappers:
         fam = [g for g in w.genes if g.id == "G1_1" or g.id.startswith("P")]
         if len(fam) >= 2:
